@@ -242,8 +242,7 @@ func runHk(in HkIn) Obs {
 		if !ok {
 			return bc, false
 		}
-		want := map[string]htypes.BindingType{HkKube: htypes.OnKubernetesEvent, HkSched: htypes.Schedule, HkValid: htypes.KubernetesValidating, HkMut: htypes.KubernetesMutating}[c.Type]
-		if bc.Metadata.BindingType != want || bc.Binding != name {
+		if bc.Binding != name {
 			o.Note = fmt.Sprintf("context of %s/%s delivered for %v", bc.Metadata.BindingType, bc.Binding, c)
 			return bc, false
 		}
@@ -271,7 +270,14 @@ func runHk(in HkIn) Obs {
 			return o
 		}
 		ro := []UpdCtxObs{}
+		rt := []string{}
 		for ci, bc := range res {
+			ty, known := map[htypes.BindingType]string{htypes.OnKubernetesEvent: HkKube, htypes.Schedule: HkSched, htypes.KubernetesValidating: HkValid, htypes.KubernetesMutating: HkMut}[bc.Metadata.BindingType]
+			if !known {
+				o.Note = fmt.Sprintf("execution %d context %d has binding type %q", len(o.Hk)+1, ci+1, bc.Metadata.BindingType)
+				ty = HkKube
+			}
+			rt = append(rt, ty)
 			fileKeys := []string{}
 			if m, ok := seen[ci]["snapshots"].(map[string]any); ok {
 				for k := range m {
@@ -301,6 +307,7 @@ func runHk(in HkIn) Obs {
 			ro = append(ro, co)
 		}
 		o.Hk = append(o.Hk, ro)
+		o.HkTypes = append(o.HkTypes, rt)
 	}
 	return o
 }
@@ -344,7 +351,12 @@ func renderHk(in HkIn, o Obs, bad string, c *core.Case) {
 			return fmt.Sprintf("([%s], %d)", strings.Join(kv, "; "), x.Objects)
 		})
 	})
-	c.Coq = fmt.Sprintf("CHk (mkHkIn %s %s) %s %s", bs, rs, os, bad)
+	ts := core.CoqList(o.HkTypes, func(r []string) string {
+		return core.CoqList(r, func(t string) string {
+			return coqBType(t)
+		})
+	})
+	c.Coq = fmt.Sprintf("CHk (mkHkIn %s %s) %s %s %s", bs, rs, os, ts, bad)
 	c.Key = "hk" + bs + rs
 	// the input distribution: names shared between types, with different effective key sets, both executed
 	shared, differ, both := false, false, false
@@ -461,8 +473,9 @@ func genHk(r *core.Rng) HkIn {
 			if r.Chance(25) {
 				n = 1 + r.Intn(5)
 			}
-			// a validating and a mutating binding of one name share their webhook id (and path): the
-			// admission event itself cannot tell them apart; not generated (see the report)
+			// a validating and a mutating binding of one name share their webhook id: the recorded finding F31
+			// (C02_HookSpec.T_vm, C02_hook_refuted_vm; witness testdata/f31-replay.json); not generated as long
+			// as F31 is not listed for C02 in known_findings.json
 			if used[t][n] || (t == HkValid && used[HkMut][n]) || (t == HkMut && used[HkValid][n]) {
 				continue
 			}
